@@ -315,6 +315,39 @@ def apply(mu):
 def revert():
     sh("git -C %s checkout -- ." % REPO)
 
+# ---------------------------------------------------------------- split critical sections (need a
+# second thread's call between two critical sections of one poll: the racing ops)
+m("oneshot-receive-check-then-register", "src/channel/oneshot.rs",
+  """        self.inner.lock().try_receive(wait_node, cx)""",
+  """        if let RecvPollState::Unregistered = wait_node.state {
+            let (has, done) = { let st = self.inner.lock(); (st.value.is_some(), st.is_fulfilled) };
+            if !has && !done {
+                wait_node.task = Some(cx.waker().clone());
+                wait_node.state = RecvPollState::Registered;
+                self.inner.lock().waiters.add_front(wait_node);
+                return Poll::Pending;
+            }
+        }
+        self.inner.lock().try_receive(wait_node, cx)""", ["C12"])
+m("semaphore-acquire-check-then-register", "src/sync/semaphore.rs",
+  """        let mut semaphore_state = semaphore.state.lock();
+
+        let poll_res =""",
+  """        if mut_self.wait_node.state == PollState::New {
+            let ok = semaphore.state.lock().try_acquire_sync(mut_self.wait_node.required_permits);
+            if !ok {
+                mut_self.wait_node.task = Some(cx.waker().clone());
+                mut_self.wait_node.state = PollState::Waiting;
+                let mut st = semaphore.state.lock();
+                unsafe { st.waiters.add_front(&mut mut_self.wait_node) };
+                return Poll::Pending;
+            }
+            semaphore.state.lock().permits += mut_self.wait_node.required_permits;
+        }
+        let mut semaphore_state = semaphore.state.lock();
+
+        let poll_res =""", ["C06"])
+
 def main():
     args = [a for a in sys.argv[1:] if not a.startswith("--")]
     run_tests = "--tests" in sys.argv
